@@ -983,7 +983,7 @@ impl IoSim {
         // Occasionally many instances of one class (long interleaved arrays,
         // referent deltas, counts beyond one byte).
         if !small && r.chance(1, 25) {
-            let n = r.range(200, 1500);
+            let n = if r.chance(1, 2) { *r.pick(&[254u64, 255, 256, 257, 258, 511, 512, 513]) } else { r.range(200, 1500) };
             let class = if r.chance(1, 2) { "Folder" } else { "VerifMany" };
             let with_prop = r.chance(1, 2);
             for i in 0..n {
@@ -1448,6 +1448,7 @@ impl IoSim {
         ctx: &mut RunCtx,
     ) -> (Out, Fired) {
         ctx.evals += 1;
+        crate::engine::tick();
         // Same clock / RNG / Ref / hash-key environment for every decode of a run.
         crate::env::rewind();
         let base = crate::env::alloc_window_begin();
@@ -1560,7 +1561,11 @@ impl IoSim {
                 let ks: Vec<usize> = match only {
                     Some(k) => vec![*k as usize],
                     None => {
-                        let stride = (*stride).max(1) as usize;
+                        // Exhaustive for small files; for larger ones a stride that
+                        // keeps one run within a few thousand decodes (plus every
+                        // structure boundary +-4).
+                        let budget = if ctx.thorough { 24_000 } else { 4_000 };
+                        let stride = ((*stride).max(1) as usize).max(file.len() / budget + 1);
                         let mut ks: Vec<usize> = (0..file.len()).step_by(stride).collect();
                         if stride > 1 {
                             // all structure boundaries +-4
@@ -1710,10 +1715,12 @@ impl IoSim {
                 let ks: Vec<usize> = match only {
                     Some(k) => vec![*k as usize],
                     None => {
-                        if *stride <= 1 {
+                        let budget = if ctx.thorough { 12_000 } else { 3_000 };
+                        let stride = ((*stride).max(1) as usize).max(file.len() / budget + 1);
+                        if stride <= 1 {
                             ctx.count("write_err_files_enumerated_exhaustively");
                         }
-                        (0..file.len()).step_by((*stride).max(1) as usize).collect()
+                        (0..file.len()).step_by(stride).collect()
                     }
                 };
                 for k in ks {
@@ -1721,6 +1728,7 @@ impl IoSim {
                         continue;
                     }
                     ctx.evals += 1;
+                    crate::engine::tick();
                     let mut w = SimWriter::new(plan);
                     w = if *zero { w.zero_at(k) } else { w.err_at(k, err_kind(*kind)) };
                     let res = crate::panic::catch(|| encode_raw(format, src, &mut w));
